@@ -22,7 +22,8 @@ for d in sorted(glob.glob(os.path.join(H, "seeded", "*"))):
     name = os.path.basename(d)
     m = json.load(open(mf))
     prop = m["property"]
-    rnd = "2" if "-r2-" in name else ("3" if "-r3-" in name else "1")
+    mr = re.search(r"-r(\d)-", name)
+    rnd = mr.group(1) if mr else "1"
     det = m.get("detected_by", "")
     missed0 = history_missed(name) or "NOT detected" in det
     if m.get("neutralised"):
